@@ -37,6 +37,8 @@
 -/
 import ClarabelProofs.Lemmas.SolverStaleIdem
 import ClarabelProofs.Lemmas.SolverStaleExample
+import ClarabelProofs.Lemmas.KktQwNew
+import ClarabelProofs.Lemmas.SolverModelNoPanicExample
 
 namespace Clarabel.C05
 open Clarabel Clarabel.Solver
@@ -83,7 +85,7 @@ theorem full_solve_info_block_dead (hbeq : ((0 : α) == 0) = true) (st : Solver.
     (i : InfoS α) (a b c : α) :
     RelM SolveObs (S.solve st) (({ S with st := withInfo S.st i a b c } : Solver α).solve st) :=
   solve_rel hbeq qdldl_kktSim st
-    { data := rfl, variables := VarsShape.of_eq rfl, residuals := ResidShape.of_eq rfl,
+    { data := rfl, «variables» := VarsShape.of_eq rfl, residuals := ResidShape.of_eq rfl,
       kktsystem := ⟨QW.rfl' _, rfl, rfl, rfl, rfl, SameFrom.rfl' _ _, rfl, SameFrom.rfl' _ _⟩,
       cones := ConesShape.rfl' _, stepLhs := StepShape.of_eq rfl, stepRhs := StepShape.of_eq rfl,
       prevVars := VarsShape.of_eq rfl }
@@ -233,5 +235,158 @@ example : (((0 : Int) == 0) = true) ∧ (∀ a : Int, 0 * a = 0) ∧ (∀ a : In
   ⟨by decide, Int.zero_mul, Int.mul_zero⟩
 
 end staleExamples
+
+/-! ### round 4: hypothesis (iv) `QW` is a theorem about the model's `DirectLDLKKTSolver` + QDLDL
+
+  `QW K K'` asks the two objects to answer `update(cones, st)` alike for EVERY cone list and EVERY
+  settings.  Between the object a `solve()` started from and the object it left this is too strong —
+  it is false in general, for two reasons that have nothing to do with `solve()`:
+    * a cone list with FEWER sparse (expanded) second-order cones than the object has expansion maps
+      (same `Hs` length, e.g. a nonnegative cone in the place of a large second-order cone) passes every
+      guard of `update` and leaves the `u, v, D` entries written by the last solve in place;
+    * an `update` under settings with static regularisation OFF does not rewrite the `± ε` that an
+      `update` with static regularisation ON put on the diagonal of the engine's permuted copy.
+  `solve()` calls `update` with its own cone list (same shape on every call) and its own settings only,
+  and only the FIRST `update` of a `solve()` (in `default_start`) meets the object the previous `solve()`
+  left: after it the two runs hold `QB`-related objects and `qdldl_kktSim` applies.  So the statement
+  proved here is `QW` restricted to these calls (`full_update_forgets`; its conclusion is literally the
+  body of `QW`), and `full_solve_idempotent` is `full_solve_idempotent_finite` without hypothesis (iv).
+
+  Ingredients (`Lemmas/KktQw*.lean`): lock-step lemmas for `_update_values / _scale_values /
+  csc_update_sparsecone` on both copies of the matrix (`AgreeOn`, `LS`, `QR`); C12
+  `factor_buffers_irrelevant` + `HistInv` ("`refactor` is a function of `triuA` and the symbolic data":
+  `refactor_ls`); C11 `regularizeAndRestore_restores` (the solver's own copy is restored bit for bit);
+  single-run frames through `update`, `setrhs`, `solve` and the whole `solve()` (`solve_kstep`). -/
+section forgets
+variable {α : Type} [Add α] [Sub α] [Mul α] [Div α] [Neg α] [OfNat α 0] [OfNat α 1] [OfNat α 2]
+  [OfNat α 100] [OfNat α 1000] [LT α] [DecidableLT α] [LE α] [DecidableLE α] [BEq α] [FloatLike α]
+
+/-- [S] `C05.full_update_forgets` — **hypothesis `QW` as a theorem**, for the calls `solve()` makes.
+`K'` is `K` up to what an `update` under the settings `st` rewrites (`Upd st K K'`: same structural
+data; the solver's own KKT values agree off the `Hs` / sparse-cone positions; the engine's permuted copy
+agrees off the slots behind these positions and — static regularisation on — behind the diagonal;
+`L, D, D⁻¹`, the counters, `is_symbolic`, `Hsblocks`, `x, b, work1, work2`, and — static regularisation
+on — `diagonal_regularizer` hold ANYTHING of the same lengths); `K`'s QDLDL object was built by
+`QDLDLFactorisation::new` and has since been updated / refactored only (`LdlInv`, C12 `HistInv`); the
+cone list has at least as many sparse second-order cones as `K` has expansion maps.  Then
+`update(cones, st)` answers alike on both: the same error, or the same flag and objects that differ in
+the content of the four work vectors only.  The conclusion is the body of `QW` (`Lemmas/
+SolverStaleQdldl.lean`) for this `(cones, st)`. -/
+theorem full_update_forgets {st : LinSettings α} {K K' : KktSolver α} (h : Upd st K K')
+    (hI : Clarabel.Solver.LdlInv K.ldl) (cones : List (ConeSt α))
+    (hfit : K.map.sparse_maps.size ≤ nSp cones) :
+    RelM (fun r r' => r.1 = r'.1 ∧ QB r.2 r'.2) (K.update cones st) (K'.update cones st) :=
+  update_forgets h hI cones hfit
+
+/-- [S] `C05.full_update_forgets_QW` — hypothesis `QW` in its EXACT shape (every cone list, every
+settings), in the case where it is true: `K'` was reached from `K` under settings WITHOUT static
+regularisation and the object has no expansion maps (no second-order cone of dimension `> 4`).  (With
+static regularisation or a sparse cone `QW` itself fails — see the section header — and
+`full_update_forgets` / `full_solve_idempotent` take its place.) -/
+theorem full_update_forgets_QW {st : LinSettings α} {K K' : KktSolver α} (h : Upd st K K')
+    (hI : Clarabel.Solver.LdlInv K.ldl) (hoff : st.staticRegEnable = false)
+    (hsp : K.map.sparse_maps.size = 0) : QW K K' :=
+  qw_of_upd h hI hoff hsp
+
+/-- [S] `C05.full_solve_leaves_updatable_object`: a whole `solve()` changes the linear-solver object only
+in what the next `update` rewrites (`Upd`), keeps its invariant `KInv` (C12's history invariant, common
+length of the work vectors) — hence (`full_update_forgets`) the object it leaves answers the first
+`update` of the next `solve()` exactly like the object it started from (`QW1`), and `KktOk` holds
+again. -/
+theorem full_solve_leaves_updatable_object {S : Solver α} {st : Solver.Settings α} {r : SolveResult α}
+    (h : S.solve st = .ok r) (hc : ConesOk S.st.cones) (hk : KktOk S.st) :
+    Upd st.lin S.st.kktsystem.kktsolver r.S.st.kktsystem.kktsolver ∧ KktOk r.S.st ∧
+      QW1 (setIdentityScaling S.st.cones) st.lin S.st.kktsystem.kktsolver r.S.st.kktsystem.kktsolver :=
+  ⟨(solve_kstep h hk.inv).1, (solve_kktOk h hc hk).1, (solve_kktOk h hc hk).2⟩
+
+/-- [S] `C05.full_new_solver_kkt_well_formed`: the structural invariant `KktOk` (the QDLDL object
+satisfies C12's history invariant; `x, b, work1, work2` have one common length; one expansion map per
+sparse second-order cone) holds for every solver object built by `DefaultSolver::new` on well-formed
+input — canonical CSC data of matching dimensions (`InputOK`), at least one variable, and an ordering
+`perm` of the right length (`PermFor`; the AMD ordering is an input of the model).  These are the
+hypotheses of `C04.full_new_establishes_invariant` without the scalar law `PivotOK`. -/
+theorem full_new_solver_kkt_well_formed {P : Csc α} {q : Array α} {A : Csc α} {b : Array α}
+    {cones : List (ConeT α)} {st : Solver.Settings α} {perm : Array Nat} (hin : InputOK P q A b cones)
+    (hn : 0 < P.n) (hperm : PermFor P q A b cones st perm) {S : Solver α}
+    (h : Solver.new P q A b cones st perm = .ok S) : KktOk S.st :=
+  solverNew_kktOk hin hn hperm h
+
+/-- [S] `C05.full_solve_idempotent`: **the same solver solved twice — hypothesis (iv) `QW` removed.**
+If the first `solve()` on a solver object returned `r1` (with whatever figures: a `NumericalError` with
+a NaN iterate included), the second `solve()` on the object it left returns the same observable result
+— the same `solution` (status, `x, s, z`, objectives, iterations, residuals), the same trajectory pass
+by pass, the same final iterate and `info` figures — provided
+  (iii) `solve_initial_point` succeeds (`default_start` does not check its result: otherwise the iterate
+        of the first solve is the start of the second).
+`ConesOk`, `WellSized`, `WorkxSized`, `KktOk` and `hsz` are structural facts about the object: every
+object built by `DefaultSolver::new` has them (`full_new_solver_is_well_formed`,
+`full_new_solver_kkt_well_formed`), and `solve()` preserves them, so the theorem chains to a third,
+fourth … call.  Valid for every scalar type (bit-identical at `Float`): every numeric entry of the
+linear-solver object that the first solve changed — KKT values at the `Hs` / sparse-cone positions, the
+engine's permuted copy incl. its `± ε` diagonal, `L, D, D⁻¹`, the counters, `Hsblocks`, the work
+vectors, `diagonal_regularizer` — is rewritten before it is read. -/
+theorem full_solve_idempotent (hbeq : ((0 : α) == 0) = true) (st : Solver.Settings α) {S : Solver α}
+    {r1 : SolveResult α} (h1 : S.solve st = .ok r1) (hc : ConesOk S.st.cones) (hw : WellSized S.st)
+    (hq : WorkxSized S.st) (hk : KktOk S.st)
+    (hsz : ∀ n, (presolveMap S.st.data).map (fun m => m.keep.size) = some n →
+      S.solution.s.size ≤ n ∧ S.solution.z.size ≤ n)
+    (hinit : InitPointOk (resetInfo S.st) st) :
+    (∃ r2, r1.S.solve st = .ok r2 ∧ SolveObs r1 r2)
+      ∧ ConesOk r1.S.st.cones ∧ WellSized r1.S.st ∧ WorkxSized r1.S.st ∧ KktOk r1.S.st :=
+  ⟨solve_twice_obs1 hbeq st h1 hc hw hq hk hsz hinit, solve_conesOk h1 hc, solve_wellSized h1 hc hw,
+    solve_workxSized h1 hc hq, (solve_kktOk h1 hc hk).1⟩
+
+/-- [S] `C05.full_solve_idempotent_new`: the same for a solver object fresh from `DefaultSolver::new` on
+well-formed input: all structural hypotheses are discharged; what is left is (iii) and the input
+hypotheses of `new`. -/
+theorem full_solve_idempotent_new (hbeq : ((0 : α) == 0) = true) {P : Csc α} {q : Array α} {A : Csc α}
+    {b : Array α} {cones : List (ConeT α)} {st : Solver.Settings α} {perm : Array Nat}
+    (hin : InputOK P q A b cones) (hn : 0 < P.n) (hperm : PermFor P q A b cones st perm) {S : Solver α}
+    (hS : Solver.new P q A b cones st perm = .ok S) {r1 : SolveResult α} (h1 : S.solve st = .ok r1)
+    (hsz : ∀ n, (presolveMap S.st.data).map (fun m => m.keep.size) = some n →
+      S.solution.s.size ≤ n ∧ S.solution.z.size ≤ n)
+    (hinit : InitPointOk (resetInfo S.st) st) :
+    ∃ r2, r1.S.solve st = .ok r2 ∧ SolveObs r1 r2 :=
+  have hf := full_new_solver_is_well_formed hS
+  (full_solve_idempotent hbeq st h1 hf.1 hf.2.1 hf.2.2 (solverNew_kktOk hin hn hperm hS) hsz hinit).1
+
+end forgets
+
+/-! non-vacuity of the round-4 theorems on the example problem (scalar type `Int`) -/
+section forgetsExamples
+open Clarabel.Solver.Example
+attribute [local instance] intFloatLike
+
+/-- the input hypotheses of `full_new_solver_kkt_well_formed` / `full_solve_idempotent_new` hold on the
+example, `new` succeeds, and (iii) holds on the object it builds -/
+example : InputOK P #[1] A #[1] ([.nonneg 1] : List (ConeT Int)) ∧ 0 < P.n ∧
+    PermFor P #[1] A #[1] ([.nonneg 1] : List (ConeT Int)) (st 3) #[0, 1] ∧
+    ∃ S, newSolver 3 = .ok S ∧ KktOk S.st ∧ InitPointOk (resetInfo S.st) (st 3) := by
+  obtain ⟨S, hS⟩ := exNew_ok
+  exact ⟨exInputOK, by decide, exPermFor, S, hS, full_new_solver_kkt_well_formed exInputOK (by decide) exPermFor hS,
+    example_initPointOk hS⟩
+
+/-- `full_update_forgets` applies to the object `new` builds and the same object with junk in the
+work vectors; `Upd` is reflexive, and (by `full_solve_leaves_updatable_object`) relates the object
+before and after any `solve()` -/
+example {S : Solver Int} (h : newSolver 3 = .ok S) :
+    RelM (fun r r' => r.1 = r'.1 ∧ QB r.2 r'.2)
+      (S.st.kktsystem.kktsolver.update S.st.cones (st 3).lin)
+      (S.st.kktsystem.kktsolver.update S.st.cones (st 3).lin) :=
+  full_update_forgets (Upd.rfl' _ _)
+    (full_new_solver_kkt_well_formed exInputOK (by decide) exPermFor h).inv.ldl _
+    (full_new_solver_kkt_well_formed exInputOK (by decide) exPermFor h).fit
+
+/-- `full_update_forgets_QW` applies on the example (its settings have static regularisation off, its
+cone list has no second-order cone): for the object `new` builds and the object its `solve()` leaves,
+hypothesis (iv) of `full_solve_idempotent_finite` holds in its original form -/
+example {S : Solver Int} (h : newSolver 3 = .ok S) {r : SolveResult Int} (hr : S.solve (st 3) = .ok r)
+    (hsp : S.st.kktsystem.kktsolver.map.sparse_maps.size = 0) :
+    QW S.st.kktsystem.kktsolver r.S.st.kktsystem.kktsolver :=
+  have hk := full_new_solver_kkt_well_formed exInputOK (by decide) exPermFor h
+  full_update_forgets_QW (full_solve_leaves_updatable_object hr (full_new_solver_is_well_formed h).1 hk).1
+    hk.inv.ldl rfl hsp
+
+end forgetsExamples
 
 end Clarabel.C05
